@@ -5,14 +5,12 @@ p='/verif/DESIGN.md'
 s=open(p).read()
 i=s.index("## 8. Showing that the checks can fail")
 j=s.index("## 9. Log of false alarms and corrections")
-def rows(pattern, r2, r3=False, r4=False, r5=False):
+def rows(rnd):
     out=[]
     for d in sorted(x for x in glob.glob('/verif/seeded/*') if os.path.isdir(x)):
         k=os.path.basename(d)
-        if ('-r5-' in k)!=r5: continue
-        if not r5 and ('-r4-' in k)!=r4: continue
-        if not r4 and not r5 and ('-r3-' in k)!=r3: continue
-        if not r3 and not r4 and not r5 and ('-r2-' in k)!=r2: continue
+        mm=re.search(r'-r(\d)-',k)
+        if (int(mm.group(1)) if mm else 1)!=rnd: continue
         m=json.load(open(d+'/meta.json'))
         clause=''
         if m.get('violated_clauses'):
@@ -23,9 +21,9 @@ def rows(pattern, r2, r3=False, r4=False, r5=False):
         if m.get('origin'): extra=' — '+m['origin']
         out.append('| %s | %s | %s%s |'%(k,m['property'],clause,extra))
     return out
-r1=rows('',False); r2=rows('',True); r3=rows('',False,True); r4=rows('',False,False,True); r5=rows('',False,False,False,True)
-n1=len(r1); n2=len(r2); n3=len(r3); m3=sum('missed at first' in r for r in r3); n4=len(r4); m4=sum('missed at first' in r for r in r4); n5=len(r5); m5=sum('missed at first' in r for r in r5)
-m1=sum('missed at first' in r for r in r1); m2=sum('missed at first' in r for r in r2)
+r1,r2,r3,r4,r5,r6=[rows(i) for i in range(1,7)]
+def nm(r): return len(r),sum('missed at first' in x for x in r)
+(n1,m1),(n2,m2),(n3,m3),(n4,m4),(n5,m5),(n6,m6)=[nm(r) for r in (r1,r2,r3,r4,r5,r6)]
 own=open('/verif/mutants/RESULTS.txt').read().strip().split('\n')
 ownrows=[]
 for l in own:
@@ -97,6 +95,23 @@ against the checks as they stood after round 4): %d detected as the checks stood
 | seed | property | detected by (scenario / clause) |
 |---|---|---|
 '''%(n5,n5-m5,m5)+'\n'.join(r5)+'''
+
+**Round 6** (%d changes so far, the brief of round 2 again — "aim beyond what a small-scope explorer
+covers" — with the ideas of all earlier rounds listed as used up; run against the checks as they
+stood after round 5): %d detected as the checks stood, **%d missed at first**. All are detected
+now. What the misses had in common this time was not a size boundary but a *band* or a *tiling*: a
+numeric fast path wrong only for offsets of 1100-2048 s, a pooled allocation wrong only when packet
+sizes tile 4096 bytes exactly, a count field wrong only from 86 up, a start-code scanner wrong only
+for the body `00 01 00 01`, temporal-layer counts wrong only when layer k+4 differs from layer k, a
+length of 2^21. The response was again by rule: continuous quantities get sweeps (every whole
+second / minute, a logarithmic grid with 16 mantissas per octave) next to their boundary lists;
+every count field is taken through its *whole* range; instances are driven with long runs of
+equal-sized inputs for every power of two; content alphabets include the bytes the scanners look at;
+reference content has no power-of-two period.
+
+| seed | property | detected by (scenario / clause) |
+|---|---|---|
+'''%(n6,n6-m6,m6)+'\n'.join(r6)+'''
 
 What changed in response, as a rule rather than case by case: every property whose code handles a
 length, a count or an index now has a *scale* scenario next to its small-scope product, in which
